@@ -478,6 +478,10 @@ class Collector(object):
         if len(self.failures) < self.max_failures:
             self.failures.append({'check': check, 'cls': cls, 'witness': witness, 'detail': detail})
 
+    def saturated(self):
+        """enough failures recorded: further cases cannot change the verdict, generators may stop"""
+        return len(self.failures) >= self.max_failures
+
     def result(self):
         return {'name': self.name, 'evaluations': self.evaluations,
                 'distinct_nontrivial': len(self.classes), 'rule': self.rule, 'samples': self.samples,
